@@ -31,8 +31,33 @@ func (l *SimLoader) LoadConfig() ([]byte, error) {
 	if err := l.H.C.Callback("load", l.H.ID, nil); err != nil {
 		return nil, err
 	}
+	if l.H.LoaderHook != nil {
+		l.H.LoaderHook()
+	}
+	if l.H.Data2 != nil && l.H.Data2Active {
+		return l.H.Data2, nil
+	}
 	return l.Data, nil
 }
+
+// ValLoaderO / ValLoaderP are ordered loaders that are handed over BY VALUE; the slice field
+// makes their type unhashable.
+type ValLoaderO struct {
+	H    *Handle
+	Data []byte
+}
+
+func (l ValLoaderO) LoadConfig() ([]byte, error) {
+	if err := l.H.C.Callback("load", l.H.ID, nil); err != nil {
+		return nil, err
+	}
+	return l.Data, nil
+}
+func (l ValLoaderO) Order() int { return l.H.Ord }
+
+type ValLoaderP struct{ ValLoaderO }
+
+func (l ValLoaderP) Priority() {}
 
 type SimLoaderO struct {
 	SimLoader
@@ -213,3 +238,16 @@ func (c CfgNest) String() string {
 	}
 	return fmt.Sprintf("{%d %s}", c.Inner.A, c.B)
 }
+
+// CfgReq is a configuration struct with a by-value struct member that is required: validated
+// (bare `validate` argument), it fails exactly when that member is all zero.
+type CfgReq struct {
+	Inner CfgPlain `yaml:"inner" validate:"required"`
+	B     string   `yaml:"b"`
+}
+
+type CfgPlain struct {
+	A int `yaml:"a"`
+}
+
+func (c CfgReq) String() string { return fmt.Sprintf("{%d %s}", c.Inner.A, c.B) }
